@@ -252,6 +252,68 @@ theorem accounts_monotone (cfg : Config) (st : State) (files : List FileView) (h
   rw [notifyNewFiles_eq]
   exact ⟨i1, i2⟩
 
+section added
+open FFS.Model.Keystore
+
+/-! ### availability: a request succeeds whenever the key file and a usable password are present -/
+
+/-- the password `loadWalletFile` ends up using: the per-key / metadata-referenced file (trimmed when configured) when
+    it can be read, else the default password file -/
+def usablePassword (cfg : Config) (fs : Fs) (passwordFilename : String) : Option Bytes :=
+  match (if passwordFilename != "" then
+      (fsRead fs passwordFilename).map fun p => if cfg.passwordTrimSpace then trimSpace p else p else none) with
+  | some p => some p
+  | none => if cfg.defaultPasswordFile == "" then none else fsRead fs cfg.defaultPasswordFile
+
+/-- **Availability of loading.** If the file named for the address exists, the configured rule resolves it to a key
+    file that exists, a usable password is present (per-key file, metadata-referenced file or default file, trimmed
+    when so configured) and the key file decrypts under it, then loading succeeds with that key. -/
+theorem load_available (cfg : Config) (fs : Fs) (ks : Bytes → KsFile) (metaOf : String → MetaResult)
+    (addr : Addr) (primary : String) (b kb password key : Bytes) (kf pf : String)
+    (hprim : fsRead fs primary = some b)
+    (hfiles : keyAndPasswordFiles cfg addr primary (metaOf primary) = some (kf, pf))
+    (hkey : (if kf != primary then fsRead fs kf else some b) = some kb)
+    (hpw : usablePassword cfg fs pf = some password)
+    (hread : readWalletFile (ks kb) password = .ok key) :
+    loadWalletFile cfg fs ks metaOf addr primary = .ok key := by
+  unfold usablePassword at hpw
+  unfold loadWalletFile
+  rw [hprim]
+  simp only []
+  rw [hfiles]
+  simp only []
+  rw [hkey]
+  simp only []
+  generalize (if (pf != "") = true then
+      Option.map (fun p => if cfg.passwordTrimSpace = true then trimSpace p else p) (fsRead fs pf) else none) = e at hpw ⊢
+  cases e with
+  | some p =>
+    simp only [] at hpw ⊢
+    injection hpw with hpw
+    subst hpw
+    rw [hread]
+  | none =>
+    simp only [] at hpw ⊢
+    rw [hpw]
+    simp only []
+    rw [hread]
+
+/-- **Availability of a request.** For an address the wallet has discovered (it is in the file map) and has not
+    cached, a request returns the key whenever loading is available as above and the key derives the address. -/
+theorem request_available (derive : Bytes → Addr) (st : State) (addr : Addr) (load : String → Outcome Bytes)
+    (primary : String) (key : Bytes)
+    (hmiss : st.cache.find? (·.1 == addr) = none)
+    (hmap : mapLookup st.addressToFileMap addr = some primary)
+    (hload : load primary = .ok key) (hown : derive key = addr) :
+    (getWalletFile derive st addr load).2 = .ok key := by
+  unfold getWalletFile
+  rw [hmiss]
+  simp only [hmap, hload]
+  simp [hown]
+
+
+end added
+
 /-! ### non-vacuity: concrete inputs on which the hypotheses hold (evaluated by the kernel) -/
 open FFS.Model.FsWallet
 def exCfg : Config := ⟨"/k", ".key.json", false, false, ".pwd", "", true, "", "auto"⟩
